@@ -20,7 +20,7 @@ func init() { streams["scope"] = streamScope }
 type scopeWrap struct {
 	name string
 	// build returns the source of the wrapper with the body placed in the block under test.
-	build func(body string) string
+	build          func(body string) string
 	inLoop, inFunc bool
 	// ownX: the wrapper itself binds x in its own scope (loop variable, catch variable, parameter, C-for var)
 	ownX bool
@@ -105,52 +105,62 @@ func streamScope(o *Out, r *rand.Rand, n int, thorough bool) {
 					body += "\n" + ex.src
 				}
 				inner := w.build(body)
-				// everything inside an outer try so that thrown / runtime errors are "caught later"
-				src := "x = \"outer\"\nz = 0\ntry {\n" + inner + "\n} catch err {\n}\nprobe(x)\nvar y = \"after\"\ny2 = \"after2\"\n"
-				// expected x after: an assignment inside reaches the outer x unless the wrapper (or a var before it) rebinds x inside
-				wantX := "outer"
-				if a.assigns && !w.ownX {
-					wantX = "assigned"
-				}
-				// a finally / deferred body may not run if ... (all our wrappers run the body at least once)
-				stmt, err := parser.ParseSrc(src)
-				if err != nil {
-					o.Fail(Failure{Oracle: "scope-template-parses", Key: "scope-template-parse", Input: src, Detail: err.Error()})
-					continue
-				}
-				res := runVM(stmt, -1, 3*time.Second)
-				key := w.name + "/" + a.name + "/" + ex.name
-				o.Case(fmt.Sprintf("(run %d _ %s)", modelFuel, astser.Prog(stmt)), res.line, src, true)
-				o.Sum.Hist["wrapper:"+w.name]++
-				o.Sum.Hist["exit:"+ex.name]++
-				if res.panicked || res.hung {
-					o.Fail(Failure{Oracle: "no-panic", Key: "scope-panic:" + key, Input: src, Detail: fmt.Sprint(res.panicVal, res.hung)})
-					continue
-				}
-				vars := parseVars(res.line)
-				if res.err != nil {
-					o.Fail(Failure{Oracle: "scope-caught-error", Key: "scope-error-escaped:" + key, Input: src, Detail: res.err.Error()})
-					continue
-				}
-				if got := vars["x"]; got != vals.Encode(wantX) {
-					o.Fail(Failure{Oracle: "scope-binding-visibility", Key: "scope-x:" + key, Input: src, Detail: fmt.Sprintf("x after the construct is %s, expected %q", got, wantX)})
-				}
-				if len(res.trace) == 0 || res.trace[len(res.trace)-1] != vals.Encode(wantX) {
-					o.Fail(Failure{Oracle: "scope-binding-visibility", Key: "scope-read-x:" + key, Input: src, Detail: fmt.Sprintf("probe(x) after the construct saw %v, expected %q", res.trace, wantX)})
-				}
-				// execution continues in the scope that was current before: y and y2 land in the top-level scope
-				if vars["y"] != vals.Encode("after") || vars["y2"] != vals.Encode("after2") {
-					o.Fail(Failure{Oracle: "scope-restored", Key: "scope-not-restored:" + key, Input: src, Detail: fmt.Sprintf("top-level bindings after the construct: y=%q y2=%q (expected after/after2 in the global scope)", vars["y"], vars["y2"])})
-				}
-				// bindings made inside are not visible after: z only when assigned (z exists outside)
-				if a.name == "multi-var" && vars["z"] != vals.Encode(int64(0)) {
-					o.Fail(Failure{Oracle: "scope-binding-visibility", Key: "scope-z:" + key, Input: src, Detail: "var z inside the block changed the outer z: " + vars["z"]})
-				}
-				if _, leaked := vars["e"]; leaked {
-					o.Fail(Failure{Oracle: "scope-binding-visibility", Key: "scope-catch-var-leak:" + key, Input: src, Detail: "catch variable e visible at top level"})
-				}
-				if _, leaked := vars["v"]; leaked {
-					o.Fail(Failure{Oracle: "scope-binding-visibility", Key: "scope-loop-var-leak:" + key, Input: src, Detail: "for-in variable v visible at top level"})
+				throwing := strings.Contains(ex.name, "caught")
+				for _, outerTry := range []bool{true, false} {
+					if !outerTry && throwing {
+						continue
+					}
+					// inside an outer try so that thrown / runtime errors are "caught later"; the variant without
+					// it leaves nothing between the construct and the top level that could hide a leaked scope
+					src := "x = \"outer\"\nz = 0\ntry {\n" + inner + "\n} catch err {\n}\nprobe(x)\nvar y = \"after\"\ny2 = \"after2\"\n"
+					if !outerTry {
+						src = "x = \"outer\"\nz = 0\n" + inner + "\nprobe(x)\nvar y = \"after\"\ny2 = \"after2\"\n"
+					}
+					// expected x after: an assignment inside reaches the outer x unless the wrapper (or a var before it) rebinds x inside
+					wantX := "outer"
+					if a.assigns && !w.ownX {
+						wantX = "assigned"
+					}
+					// a finally / deferred body may not run if ... (all our wrappers run the body at least once)
+					stmt, err := parser.ParseSrc(src)
+					if err != nil {
+						o.Fail(Failure{Oracle: "scope-template-parses", Key: "scope-template-parse", Input: src, Detail: err.Error()})
+						continue
+					}
+					res := runVM(stmt, -1, 3*time.Second)
+					key := w.name + "/" + a.name + "/" + ex.name
+					o.Case(fmt.Sprintf("(run %d _ %s)", modelFuel, astser.Prog(stmt)), res.line, src, true)
+					o.Sum.Hist["wrapper:"+w.name]++
+					o.Sum.Hist["exit:"+ex.name]++
+					if res.panicked || res.hung {
+						o.Fail(Failure{Oracle: "no-panic", Key: "scope-panic:" + key, Input: src, Detail: fmt.Sprint(res.panicVal, res.hung)})
+						continue
+					}
+					vars := parseVars(res.line)
+					if res.err != nil {
+						o.Fail(Failure{Oracle: "scope-caught-error", Key: "scope-error-escaped:" + key, Input: src, Detail: res.err.Error()})
+						continue
+					}
+					if got := vars["x"]; got != vals.Encode(wantX) {
+						o.Fail(Failure{Oracle: "scope-binding-visibility", Key: "scope-x:" + key, Input: src, Detail: fmt.Sprintf("x after the construct is %s, expected %q", got, wantX)})
+					}
+					if len(res.trace) == 0 || res.trace[len(res.trace)-1] != vals.Encode(wantX) {
+						o.Fail(Failure{Oracle: "scope-binding-visibility", Key: "scope-read-x:" + key, Input: src, Detail: fmt.Sprintf("probe(x) after the construct saw %v, expected %q", res.trace, wantX)})
+					}
+					// execution continues in the scope that was current before: y and y2 land in the top-level scope
+					if vars["y"] != vals.Encode("after") || vars["y2"] != vals.Encode("after2") {
+						o.Fail(Failure{Oracle: "scope-restored", Key: "scope-not-restored:" + key, Input: src, Detail: fmt.Sprintf("top-level bindings after the construct: y=%q y2=%q (expected after/after2 in the global scope)", vars["y"], vars["y2"])})
+					}
+					// bindings made inside are not visible after: z only when assigned (z exists outside)
+					if a.name == "multi-var" && vars["z"] != vals.Encode(int64(0)) {
+						o.Fail(Failure{Oracle: "scope-binding-visibility", Key: "scope-z:" + key, Input: src, Detail: "var z inside the block changed the outer z: " + vars["z"]})
+					}
+					if _, leaked := vars["e"]; leaked {
+						o.Fail(Failure{Oracle: "scope-binding-visibility", Key: "scope-catch-var-leak:" + key, Input: src, Detail: "catch variable e visible at top level"})
+					}
+					if _, leaked := vars["v"]; leaked {
+						o.Fail(Failure{Oracle: "scope-binding-visibility", Key: "scope-loop-var-leak:" + key, Input: src, Detail: "for-in variable v visible at top level"})
+					}
 				}
 			}
 		}
